@@ -4,7 +4,7 @@ From Coq Require Import List ZArith Bool.
 From TR Require Import model.Ring model.Detector model.Parse model.Processor model.ProcAbs model.ProcSpec
      proofs.ParseProofs proofs.ProcS1217.
 (* constants and wiring read from the Go sources on every run *)
-From TR Require Import model.ProcExt proofs.TieCorollaries.
+From TR Require Import model.ProcExt proofs.TieProcCorollaries.
 From TR Require Import proofs.FactsRing proofs.FactsProc proofs.FactsDeps.
 Import ListNotations.
 Open Scope Z_scope.
